@@ -9,6 +9,8 @@
     module once with config[module.name]
  R3 partial filter keeps a module iff its full name is listed (set semantics), panics on
     unknown non-empty names
+How: R2 by three selection scenarios (--partial given / kernel module / default), the retain predicates evaluated over the
+registered names (lib/strpred) and compared as sets.
 """
 from .lib import sym as S
 from .lib import thir as T
